@@ -47,7 +47,7 @@ func init() {
 		TimeoutS:   150,
 		NonTrivial: func(res *Result) bool { return batchNonTrivial(res) && (res.Stats["reach.failing-lines"] > 0 || res.Stats["mode.serial"] > 0) },
 		Rule:       "one batch scenario per evaluation: valid lines mixed with lines of each reported-error class (unknown soil id, unknown field id, texture not in the tables, inconsistent fractions, weather gap, tillage inside the crop, start year mismatch) at random positions, any concurrency, executed by the real dispatcher under the seeded scheduler, an eighth each with write errors (full disk, transient, torn write) on one good line's result stream, with a weather year file that disappears at a scheduler decision while the batch is under way, with a crash and re-run over torn survivors, with the one optional input file (tillage schedule) arriving at a scheduler decision (a run that starts afterwards must see it), and with a pooled input file unreadable at the very moment of its first load (child process: the program may give up or fail that line, never go on with other content), and with a pooled project file replaced by another version at a scheduler decision (every line of that project equals its solo run on the old or on the new version, never a mixture); every fourth scenario instead carries fertiliser-prediction dates at latitudes -70..70 (termination); non-trivial = at least two runs parked simultaneously; distinct = hash of the decision trace",
-		ReachKeys:  []string{"reach.interleaved", "reach.failing-lines", "fault.permutation", "fault.write-error.scenarios", "fault.year-file-deleted-mid-batch", "reach.line-failed-by-the-loss", "fault.crash", "fault.optional-input-file-arrives-mid-batch", "reach.run-started-after-the-file-arrived", "reach.run-started-before-the-file-arrived", "fault.pooled-file-unreadable", "fault.pooled-file-replaced-mid-batch"},
+		ReachKeys:  []string{"reach.interleaved", "reach.failing-lines", "fault.permutation", "fault.write-error.scenarios", "fault.year-file-deleted-mid-batch", "reach.line-failed-by-the-loss", "fault.crash", "fault.optional-input-file-arrives-mid-batch", "reach.run-started-after-the-file-arrived", "reach.run-started-before-the-file-arrived", "reach.process-ended-at-the-unreadable-file", "fault.pooled-file-vanishes-after-its-first-load", "fault.pooled-file-replaced-mid-batch", "reach.run-started-after-the-replacement"},
 		Assumptions: []string{
 			"termination is decided by a CPU watchdog: a worker that makes no progress for 90 s while its scenarios normally need < 1 s is killed and its goroutine dump inspected",
 			"the reference of every line is the same line executed alone in a fresh session",
